@@ -173,10 +173,17 @@ fn noop_cx() -> Context<'static> {
 fn drain(rem: &mut Remote, lane_of: &dyn Fn(&str) -> i64, out: &mut Vec<Value>) {
     if let Some(rd) = rem.reader.as_mut() {
         let mut store = [0u8; 4096];
+        // The channel yields cooperatively (Pending + wake) every 64th call on this thread: a single
+        // Pending is not "empty", two in a row are (the budget is fresh after a yield).
+        let mut pendings = 0;
         loop {
             let mut rb = ReadBuf::new(&mut store);
             match Pin::new(&mut *rd).poll_read(&mut noop_cx(), &mut rb) {
-                Poll::Ready(Ok(())) if !rb.filled().is_empty() => rem.buf.extend_from_slice(rb.filled()),
+                Poll::Ready(Ok(())) if !rb.filled().is_empty() => {
+                    pendings = 0;
+                    rem.buf.extend_from_slice(rb.filled())
+                }
+                Poll::Pending if pendings == 0 => pendings = 1,
                 _ => break,
             }
         }
